@@ -10,7 +10,7 @@ import json
 
 from harness import core
 
-ENVS = [dict(x=6, y=3, a=5, b=2, c=4), dict(x=-4, y=2, a=-3, b=7, c=-5)]
+ENVS = [dict(x=6, y=3, a=5, b=2, c=4, w=40), dict(x=-4, y=2, a=-3, b=7, c=-5, w=-20)]
 
 
 def form_text(f):
